@@ -125,3 +125,44 @@ def C12(run):
     run.assumptions += ["a pure irreversible-step cursor whose block differs from its LIB is not generated (the server never emits one; "
                         "the code resolves it to start block 0 silently - noted in DESIGN.md)",
                         "requests with stop <= start (other than the rejected start = stop) are outside the stated space"]
+
+
+GRAPH_RULE = ("random acyclic module graphs (1..12 modules; maps, stores, block indexes; source / clock-only / params-only modules; store "
+              "inputs in get and deltas mode; block filters; initial blocks {0,5,10,20}, sometimes inconsistent with the dependencies; "
+              "module list sometimes shuffled), filtered by the real manifest.ValidateModules; ")
+
+
+def C14(run):
+    q = run.tier == "quick"
+    run.model_check("MCGraph", "MCGraph_quick.cfg" if q else "MCGraph_thorough.cfg", workers=16, timeout=3000)
+    tr = _t(run, "graph.ndjson")
+    info = run.harness("graph", tr)
+    v = run.validate_sharded("TraceGraph", tr, boundary='"g":', shards=14)
+    run.judge(v, tr, "graph", only="C14:")
+    run.sample(tr, pick={3, 1000, info["records"] - 1})
+    run.cov["distinct_nontrivial"] = info["distinct_nontrivial"]
+    run.cov["rule"] = (GRAPH_RULE + "exec.NewOutputModuleGraph is run (watchdog 3 s) for every output module of small graphs and a sample "
+                       "for larger ones; the observed staging / used modules / stores are judged by the C14 predicates of Graph.tla. "
+                       "Non-trivial = more than two used modules; distinct by content.")
+    run.assumptions += ["validity of a graph = accepted by manifest.ValidateModules; a rejection by the staging code is accepted only when "
+                        "some used module really has no input at its initial block"]
+
+
+def C06(run):
+    q = run.tier == "quick"
+    run.model_check("MCGraph", "MCGraph_quick.cfg" if q else "MCGraph_thorough.cfg", workers=16, timeout=3000)
+    tr = _t(run, "sig.ndjson")
+    info = run.harness("sig", tr)
+    v = run.validate_sharded("TraceGraph", tr, boundary='"g":', shards=14)
+    run.judge(v, tr, "sig", only="C06:")
+    run.sample(tr, pick={1, 2, 16, info["records"] - 2})
+    run.cov["distinct_nontrivial"] = info["distinct_nontrivial"]
+    run.cov["rule"] = (GRAPH_RULE + "for each graph: identifiers of all modules through exec.NewOutputModuleGraph(...).ModuleHashes().Get, "
+                       "computed twice (determinism); then one mutation of each of 14 classes (code, entrypoint, initial block, kind, "
+                       "parameter value, source type, filter query, filter module, add/remove input, swap inputs of different / same kind, "
+                       "store input mode, retarget an input) and the transformations rename-all, unrelated additions at a random "
+                       "position, binaries moved to other indexes; TraceGraph.tla compares the set of modules whose real identifier "
+                       "changed with term inequality of Sig. Every record non-trivial; distinct by content.")
+    run.assumptions += ["SHA-1 collisions ignored", "alias import through the manifest reader is not exercised (rename-all models its effect on "
+                        "the module protos: prefixModules only renames)", "update policy / value type of a store are not mutation classes "
+                        "(the host interface rejects code that does not match them)"]
